@@ -125,6 +125,24 @@ def check_config(rec, idx, heavy):
                 fails.append("querying curvature/distance/volume changes the droplet or later answers")
         except Exception as exc:  # noqa: BLE001
             fails.append(f"repeated queries raised {type(exc).__name__}")
+        # ---- radius is only a unit: at R' = s R (s from 1e-9 to 1e9) curvature scales with 1/s, distance with s
+        try:
+            for sc in (1e-9, 1e-4, 1e5, 1e9):
+                big, _, _, _ = build(rec, EPS)
+                big.radius = R * sc
+                kb = np.asarray(big.interface_curvature(*args))
+                k0 = np.asarray(drop.interface_curvature(*args))
+                if not np.all(np.isfinite(kb)) or np.max(np.abs(kb * sc - k0)) > 1e-9 * np.max(np.abs(k0)):
+                    fails.append(f"curvature does not scale with 1 / radius at radius {R * sc:g}")
+            # positions for one, two, three, four directions at a time are the rows of the answer for all directions
+            allp = np.asarray(drop.interface_position(*args))
+            for nd in (1, 2, 3, 4):
+                sub = [np.asarray(a)[:nd] for a in args]
+                pp = np.asarray(drop.interface_position(*sub))
+                if pp.shape != allp[:nd].shape or np.max(np.abs(pp - allp[:nd])) > 1e-12 * R:
+                    fails.append(f"interface positions for {nd} directions differ from the same directions among many")
+        except Exception as exc:  # noqa: BLE001
+            fails.append(f"scaling / direction-count queries raised {type(exc).__name__}: {exc}")
         # ---- zero amplitudes reduce to the sphere
         z, _, _, _ = build({**rec, "modes": []}, 0.0)
         try:
